@@ -31,7 +31,7 @@ POSTULATES = ["DI", "REF", "SUPRA", "LLE", "RW", "AND", "OR", "CM", "CUT", "RM",
 
 
 def budget(tier):
-    return {"examples": 300 if tier == "quick" else 3500,
+    return {"examples": 220 if tier == "quick" else 3000,
             "soft_seconds": 300 if tier == "quick" else 3000}
 
 
